@@ -143,7 +143,8 @@ func genScenario(t *rapid.T) scenario {
 		case "X-Forwarded-Path":
 			vals = []string{"/admin/secret"}
 		case "X-Forwarded-Method":
-			vals = []string{rapid.SampledFrom([]string{"GET", "DELETE"}).Draw(t, "v")}
+			// standard methods and extension methods (WebDAV, cache purging): any method token a proxy may forward
+			vals = []string{rapid.SampledFrom([]string{"GET", "DELETE", "DELETE", "PATCH", "PROPFIND", "PURGE", "MKCOL", "QUERY"}).Draw(t, "v")}
 		}
 
 		s.Forwards = append(s.Forwards, fwd{Name: name, Values: vals})
